@@ -126,6 +126,8 @@ class AngularCoordinates(CustomNumpyArray):
         r_d3 = np.sqrt(x * x + y * y + z * z)
         x_normed = np.ones_like(x)  # fallback for zero-division, arccos(1)=0.0
         np.divide(x, r_d2, where=r_d2 > 0.0, out=x_normed)
+        # rounding (e.g. squares in the subnormal range) may push the ratio beyond 1
+        np.clip(x_normed, -1.0, 1.0, out=x_normed)
 
         ra = np.arccos(x_normed) * sgn(y) % (2.0 * np.pi)
         dec = np.arcsin(z / r_d3)
